@@ -29,10 +29,10 @@ def shape_obligations(prop):
     # with the file size, so the shape is one section at a time (strings: 23 checksummed bytes, 3 min; two sections together, 45 bytes: > 40 min)
     obs = []
     for bit, nm, what, tier in ((1, "strings", "strings of 3 and 0 bytes (empty LAST string)", "quick"),
-                                (2, "code", "5 code bytes", "thorough"),
-                                (4, "function", "1 function entry", "thorough"),
-                                (8, "debug", "1 debug entry", "thorough"),
-                                (16, "import", "1 import with 2 parameter types", "thorough")):
+                                (2, "code", "5 code bytes", "quick"),
+                                (4, "function", "1 function entry", "quick"),
+                                (8, "debug", "1 debug entry", "quick"),
+                                (16, "import", "1 import with 2 parameter types", "quick")):
         obs.append(dict(common, id="C10.rt.shape." + nm, entry="h_ser_rt", defines={"SER_SHAPE": bit}, timeout=2400, tier=tier,
                         must_have=[r"C10\.rt", r"COVER"], strength="B(one module shape: %s; contents, flags, entry point arbitrary)" % what))
     return obs
